@@ -93,7 +93,7 @@ class Exec:
             paths = sorted(files)
             olds = {p: w.read(repo, p) for p in paths}
             codes = []
-            if who != HUMAN or op.get("pre_ckpt"):
+            if (who != HUMAN and not op.get("skip_pre_ckpt")) or op.get("pre_ckpt"):
                 codes.append(w.ckpt_human(repo, paths, env=env).code)
             for p in paths:
                 c = files[p]
